@@ -8,7 +8,7 @@
    holds for every junk.  `sort`, `find`, `adler_*` stand for libc qsort / bsearch and zlib adler32.
    This file contains only statements, `exact` proofs and Print Assumptions. *)
 From Coq Require Import ZArith List Bool Permutation.
-From ScV Require Import Base.CInt Gen.Array C18.MacroProofs C08.ArrayModel C08.ArrayLists C08.ArrayGen C08.ArrayRefine C08.ArrayStep C08.ArrayTop C08.ArrayAlgo C08.ArrayFull Gen.ArrayPermC08 C08.ArrayPermGen.
+From ScV Require Import Base.CInt Gen.Array C18.MacroProofs C08.ArrayModel C08.ArrayLists C08.ArrayGen C08.ArrayRefine C08.ArrayStep C08.ArrayTop C08.ArrayAlgo C08.ArrayFull Gen.ArrayPermC08 C08.ArrayPermGen Gen.ArrayDebugC08 C08.ArrayDebugGen.
 Import ListNotations.
 Local Open Scope Z_scope.
 
@@ -224,6 +224,52 @@ Theorem C08_gen_permute_setup : forall e ret arr cnt keep p0 p1, 0 <= e <= MAXB 
   c8_permute_newind keep p0 cnt ret p1 = (if keep =? 0 then (p0, 0, 0, 0, 0, 0, 0) else (ret, 1, cnt * 8, 1, ret, p1, cnt * 8)).
 Proof. intros; split; [apply gen_permute_setup|split; [apply gen_permute_empty|apply gen_permute_newind]]; assumption. Qed.
 Print Assumptions C08_gen_permute_setup.
+
+(* ----- the SC_ENABLE_DEBUG configuration (Gen/ArrayDebugC08.v: sc_array_truncate, _rewind, _reset, _resize of the Debug build,
+   generated as whole functions; memset / sc_realloc / sc_free / sc_array_reset calls are outputs "called, arguments").
+   What the Debug build fills with -1 on its own: only storage of an OWNER, inside the array's own allocation, never a byte
+   below min (old count, new count) * elem_size (the elements that survive the call).  sc_array_resize has three fills, at most
+   one per call: m1 = the dropped elements [n * e, c * e) when it shrinks and keeps the allocation; m2 = the elements that
+   become visible [c * e, n * e) when it grows inside the kept allocation (their content is undefined by the documentation;
+   this fill replaced the assertion of F-C08g); m3 = the tail [min (c, n) * e, b') of the block of exactly b' bytes returned
+   by sc_realloc.  A view (byte_alloc < 0) is never filled: sc_array_resize of a view changes its count and calls nothing;
+   sc_array_rewind calls sc_array_reset (new_count = 0 on an owner) or sets the count, sc_array_reset frees an owner's storage
+   - neither contains a fill; sc_array_truncate (owners only, SC_ASSERT) fills [array, array + byte_alloc) with the count set
+   to 0.  The translator group also pins the census of memset calls over all sc_array functions and refuses a loop. *)
+Theorem C08_gen_debug_fills :
+  (forall a b, 0 <= b <= MAXB -> c8d_truncate a b = (0, 1, a, -1, b)) /\
+  (forall n b arr c, c8d_rewind n b arr c = if (n =? 0) && (0 <=? b) then (c, 1, arr) else (n, 0, 0)) /\
+  (forall b a, c8d_reset b a = (0, 0, 0, (if 0 <=? b then 1 else 0), (if 0 <=? b then a else 0))) /\
+  (forall b n arr c e a ret, b < 0 ->
+     c8d_resize b n arr c e a ret = (n, b, 0, 0, 0, 0, 0, 0, 0, 0, 0, 0, 0, 0, 0, 0, 0, 0, 0)) /\
+  (forall b n arr c e a ret c' b' rc ra m1c m1d m1v m1n m2c m2d m2v m2n rlc rlp rls m3c m3d m3v m3n,
+     0 < e -> 0 <= c -> 0 <= n -> c * e <= b -> n * e <= MAXB -> 0 <= b <= MAXB ->
+     c8d_resize b n arr c e a ret = (c', b', rc, ra, m1c, m1d, m1v, m1n, m2c, m2d, m2v, m2n, rlc, rlp, rls, m3c, m3d, m3v, m3n) ->
+     (m1c = 0 \/ m1c = 1) /\ (m2c = 0 \/ m2c = 1) /\ (m3c = 0 \/ m3c = 1) /\ m1c + m2c + m3c <= 1 /\
+     (m1c = 1 -> rlc = 0 /\ b' = b /\ n < c /\ m1v = -1 /\ m1d = a + n * e /\ m1n = c * e - n * e /\ m1d + m1n <= a + b) /\
+     (m2c = 1 -> rlc = 0 /\ b' = b /\ c < n /\ m2v = -1 /\ m2d = a + c * e /\ m2n = n * e - c * e /\ m2d + m2n <= a + b) /\
+     (m3c = 1 -> rlc = 1 /\ rlp = a /\ rls = b' /\ m3v = -1 /\ 0 <= m3n /\ m3d = ret + Z.min c n * e /\ m3d + m3n = ret + b' /\ n * e <= b') /\
+     (rc = 1 -> n = 0 /\ m1c = 0 /\ m2c = 0 /\ m3c = 0)).
+Proof.
+  split; [exact dbg_truncate_val|split; [exact dbg_rewind_val|split; [exact dbg_reset_val|split; [exact dbg_resize_view|exact dbg_resize_owner]]]].
+Qed.
+Print Assumptions C08_gen_debug_fills.
+
+(* Regression guard for F-C08g (repaired in /repo): the Debug build used to CHECK the bytes [oldoffs, newoffs) for 0xff instead of
+   filling them (`old_debug_assert`, the former loop at sc_containers.c:263-265 as a predicate on the block).  For every content of
+   fresh memory: after `init (4); push; push; pop` the concrete machine's block still holds the popped element; the resize to 2
+   elements is legal, keeps the allocation (the generated Debug function takes the growth fill m2 of exactly these 4 bytes) - and the
+   old assertion is FALSE on them: a legal history on which the Debug build aborted. *)
+Theorem C08_debug_assert_old_refuted : forall junk : nat -> Z -> Z,
+  let st := run junk bcmp isort lfind 1 adler32 first_byte guard_ops in
+  legal bcmp isort lfind 1 adler32 first_byte (guard_ops ++ [OResize 0 2 [9; 9; 9; 9]]) = true /\
+  exists a, cget st 0 = Some a /\ a_esz a = 4 /\ a_cnt a = 1 /\ a_balloc a = 8 /\ a_off a = 0 /\
+    hget (c_heap st) (a_blk a) = [1; 2; 3; 4; 5; 6; 7; 8] /\
+    (forall p ret arr, c8d_resize (a_balloc a) 2 arr (a_cnt a) (a_esz a) p ret =
+                       (2, 8, 0, 0, 0, 0, 0, 0, 1, p + 4, -1, 4, 0, 0, 0, 0, 0, 0, 0)) /\
+    old_debug_assert (hget (c_heap st) (a_blk a)) (a_cnt a * a_esz a) (2 * a_esz a) = false.
+Proof. exact old_assert_refuted. Qed.
+Print Assumptions C08_debug_assert_old_refuted.
 
 (* ===== derived results ============================================================================================ *)
 
